@@ -226,7 +226,10 @@ func FilterOutput(f FilterFunc) Arg {
 // arguments. If this isn't specified, the default hclog.L() logger is used.
 func Logger(l hclog.Logger) Arg {
 	return func(a *argBuilder) error {
-		a.logger = l
+		// A nil logger leaves the logger in place.
+		if l != nil {
+			a.logger = l
+		}
 		return nil
 	}
 }
